@@ -870,3 +870,8 @@ fn normalize_xml_id(value: &str) -> String {
     }
     result
 }
+
+#[cfg(feature = "xot_verif")]
+pub(crate) fn verif_normalize_xml_id(value: &str) -> String {
+    normalize_xml_id(value)
+}
